@@ -5,6 +5,7 @@ import (
 	"sync"
 	"sync/atomic"
 	"testing"
+	"time"
 
 	fpgo "github.com/TeaEntityLab/fpGo/v2"
 
@@ -69,7 +70,30 @@ func TestDoNotationStorm(t *testing.T) {
 			}
 		}(w)
 	}
-	wg.Wait()
+	// hang guard: the calls only need each other's coroutine machinery; no progress for the stall budget with
+	// every worker blocked means that machinery has wedged
+	{
+		finished := make(chan struct{})
+		go func() { wg.Wait(); close(finished) }()
+		last, lastChange := int64(-1), time.Now()
+	wait:
+		for {
+			select {
+			case <-finished:
+				break wait
+			case <-time.After(50 * time.Millisecond):
+			}
+			if n := atomic.LoadInt64(&calls); n != last {
+				last, lastChange = n, time.Now()
+			} else if time.Since(lastChange) > vlib.StallBudget() {
+				if verdict, dump := vlib.ClassifyStall([]string{"c14.TestDoNotationStorm"}); verdict == "blocked" {
+					vlib.Fail(t, "C14/deadlock", "after %d DoNotation calls from %d goroutines nothing moves any more:\n%s", n, workers, dump)
+					return
+				}
+				lastChange = time.Now()
+			}
+		}
+	}
 	atomic.StoreInt32(&stop, 1)
 	go func() {
 		var f fpgo.CorDef[int]
